@@ -302,6 +302,26 @@ class MiscMonitors:
         if a2 is None or b2 is None:
             self.violation("C17", "rebase.dropped", dict(det, a_mapped=a2 is not None, b_mapped=b2 is not None))
             return
+        # the same rebase the way a client does it in batches: over a *window* of a longer mapping
+        # (the other's map followed by later, unrelated maps) - must be the same rebase
+        try:
+            later = b2.get_map()
+            win = pt.Mapping([a.get_map(), later, later.invert()]).slice(0, 1)
+            b2w = b.map(win)
+            win2 = pt.Mapping([later.invert(), b.get_map(), later]).slice(1, 2)
+            a2w = a.map(win2)
+        except Exception as e:  # noqa: BLE001
+            self.violation("C17", "rebase.map_raised", dict(det, error=repr(e), over="mapping window"))
+            return
+        if a2w is None or b2w is None:
+            self.violation("C17", "rebase.dropped", dict(det, over="mapping window",
+                                                         a_mapped=a2w is not None, b_mapped=b2w is not None))
+            return
+        if tk.canon(b2w.to_json()) != tk.canon(b2.to_json()) or tk.canon(a2w.to_json()) != tk.canon(a2.to_json()):
+            self.violation("C17", "rebase.window_differs", dict(
+                det, b_over_map=self.describe_step(b2), b_over_window=self.describe_step(b2w),
+                a_over_map=self.describe_step(a2), a_over_window=self.describe_step(a2w)))
+            return
         sim = self.sim
         sim.in_oracle += 1
         try:
